@@ -202,6 +202,64 @@ def touched(tsc, p, w, shape, box, offset, dt):
     return rec._log
 
 
+_groups_cache = {}
+
+
+def pass_groups(tsc, nst):
+    """Which stripes does _tsc_parallel process inside the same prange region (= potentially at the same time)?
+
+    Read off the real source: _tsc_parallel.py_func is run on one tagged particle per stripe with `numba.prange` replaced by a
+    generator that opens a new group per loop and `_tsc_scatter` replaced by a recorder. On the unchanged tree this gives the even
+    stripes, then the odd ones; a change that merges the passes (no barrier between neighbouring stripes) shows up as one group.
+    Falls back to the even/odd structure of the design if the source cannot be read that way."""
+    if nst in _groups_cache:
+        return _groups_cache[nst]
+    import numba as real_numba
+
+    groups = []
+
+    class _NB:
+        def __getattr__(self, name):
+            return getattr(real_numba, name)
+
+        @staticmethod
+        def prange(*a):
+            g = []
+            groups.append(g)
+            for i in range(*a):
+                yield i
+
+    def rec(positions, dens, box, weights=None, offset=0.0):
+        for row in np.asarray(positions).reshape(-1, 3):
+            if not groups:
+                groups.append([])
+            groups[-1].append(int(row[0]))
+
+    fn = getattr(tsc._tsc_parallel, 'py_func', None)
+    ok = False
+    if fn is not None and nst >= 1:
+        ppart = np.zeros((nst, 3), dtype=np.float64)
+        ppart[:, 0] = np.arange(nst)
+        starts = np.arange(nst + 1, dtype=np.int64)
+        saved = (tsc.__dict__.get('numba'), tsc._tsc_scatter)
+        try:
+            tsc.numba = _NB()
+            tsc._tsc_scatter = rec
+            fn(ppart, starts, np.zeros((1, 1, 1)), 1.0, None, 0.0)
+            got = sorted(x for g in groups for x in g)
+            ok = got == list(range(nst))
+        except Exception:
+            ok = False
+        finally:
+            tsc.numba, tsc._tsc_scatter = saved
+    if not ok:
+        groups = [list(range(0, nst, 2)), list(range(1, nst, 2))]
+        _stats['pass_structure_fallbacks'] = _stats.get('pass_structure_fallbacks', 0) + 1
+    res = [g for g in groups if g]
+    _groups_cache[nst] = res
+    return res
+
+
 def conflict_check(tsc, cap, shape, what):
     """O1 on captured (ppart, starts, box, weights, offset)."""
     ppart, starts, box, weights, offset = cap
@@ -215,15 +273,14 @@ def conflict_check(tsc, cap, shape, what):
             for k, nz in t.items():
                 cells[k] = cells.get(k, False) or nz
         stripe_cells.append(cells)
-    for parity in (0, 1):
-        idx = list(range(parity, nst, 2))
+    for gi, idx in enumerate(pass_groups(tsc, nst)):
         owner = {}
         for s in idx:
             for k, nz in stripe_cells[s].items():
                 if k in owner:
                     s0, nz0 = owner[k]
                     if nz or nz0:
-                        return 'stripes %d and %d (both %s, processed concurrently) both update cell %s (%s); %s' % (s0, s, 'even' if parity == 0 else 'odd', k, 'one deposit is exactly zero' if not (nz and nz0) else 'both deposits non-zero', what)
+                        return 'stripes %d and %d (both in parallel pass %d = stripes %s, processed concurrently) both update cell %s (%s); %s' % (s0, s, gi, idx[:12], k, 'one deposit is exactly zero' if not (nz and nz0) else 'both deposits non-zero', what)
                 else:
                     owner[k] = (s, nz)
     return None
